@@ -515,7 +515,17 @@ func (s *session) run(in input) {
 			if e <= thr {
 				c.Max("max_passing_err_over_threshold_x1000", int64(1000*e/thr))
 			}
-			c.Check(e <= thr, sig+"|message-error-above-announced-precision"+msgPreds, func() string {
+			// the scale-class predicates name triaged defects whose effect is bounded (a relative error of at most
+			// 2^-7 for a non-power-of-two input scale, a factor input/default scale <= 2^12 in iterated mode): an
+			// error beyond that is something else and keeps the plain signature
+			mp := msgPreds
+			if in.Scale == "non-pow2" && e > math.Max(M, 1.0/1024)/16 {
+				mp = strings.Replace(mp, "|input-scale-not-a-power-of-two", "", 1)
+			}
+			if e > math.Max(M, 1.0/1024)*4096 {
+				mp = strings.Replace(mp, "|iterated,input-scale!=default", "", 1)
+			}
+			c.Check(e <= thr, sig+"|message-error-above-announced-precision"+mp, func() string {
 				return fmt.Sprintf("ciphertext %d/%d: max |out - model| = 2^%.2f > 2^%.2f (frozen floor of the set 2^%.1f + %g bits, documented sin distortion of this message 2^%.2f); |message|max=%.3g, |out-in|=2^%.2f (config %s, input %+v)",
 					i, nct, math.Log2(e), math.Log2(thr), s.floor, marginBits, math.Log2(D+1e-300), M, math.Log2(raw+1e-300), s.cf.Name, in)
 			})
